@@ -209,24 +209,59 @@ class Check(Partial):
             return
         ctx = multiprocessing.get_context('fork')
         limit = float(os.environ.get('VF_JOB_LIMIT', '0') or 0) or (1800.0 if self.quick else 10800.0)
-        with ctx.Pool(min(self.workers, len(items))) as pool:
-            try:
-                for part in bounded_imap(pool, _Guard(fn), items, chunksize, limit):
-                    if isinstance(part, _WorkerFailure):
-                        raise HarnessError('worker failed:\n' + part.text)
-                    self.merge(part)
-                    if part.violations and self.failing():
-                        self.cap('remaining jobs of %s not awaited: a violation was found' % getattr(fn, '__name__', 'a part'))
-                        break
-            except JobTimeout as e:
-                # a job of this check takes seconds to a few minutes: code under test that no longer returns
-                idx = e.index
-                self.case(key=('hang', idx), outcome=('hang',))
-                self.sample({'part': 'hang', 'job_index': idx, 'job': repr(items[idx])[:200]})
-                self.cap('job %d gave no result within %.0f s of real time; the remaining jobs were not run' % (idx, limit))
-                self.violation('hang:job_without_result', 'job %d of %d (%.200r) gave no result within %.0f s of real time: '
-                               'code under test does not return' % (idx, len(items), items[idx], limit),
-                               {'part': 'hang', 'job_index': idx})
+        pool = ctx.Pool(min(self.workers, len(items)))
+        try:
+            for part in bounded_imap(pool, _Guard(fn), items, chunksize, limit):
+                if isinstance(part, _WorkerFailure):
+                    raise HarnessError('worker failed:\n' + part.text)
+                self.merge(part)
+                if part.violations and self.failing():
+                    self.cap('remaining jobs of %s not awaited: a violation was found' % getattr(fn, '__name__', 'a part'))
+                    raise AbortRun()
+        except JobTimeout as e:
+            # a job of this check takes seconds to a few minutes: code under test that no longer returns
+            idx = e.index
+            self.case(key=('hang', idx), outcome=('hang',))
+            self.sample({'part': 'hang', 'job_index': idx, 'job': repr(items[idx])[:200]})
+            self.cap('job %d gave no result within %.0f s of real time; the remaining jobs were not run' % (idx, limit))
+            self.violation('hang:job_without_result', 'job %d of %d (%.200r) gave no result within %.0f s of real time: '
+                           'code under test does not return' % (idx, len(items), items[idx], limit),
+                           {'part': 'hang', 'job_index': idx})
+            raise AbortRun()
+        # every result has been consumed: the workers are idle and the pool can be taken down in the ordinary way (a pool
+        # with jobs in flight is never terminated - that can block for ever; AbortRun ends the process instead)
+        pool.close()
+        pool.join()
+
+
+class AbortRun(BaseException):
+    """The verdict of the run is settled (a violation has been recorded) while worker processes are still busy: run.py
+    writes the verdict and ends the process without waiting for them."""
+
+
+def hard_exit(code, scratch=None):
+    """End this process now: no new workers, kill the existing ones, remove the scratch directory, os._exit."""
+    import shutil
+    me = os.getpid()
+
+    def no_fork():
+        raise OSError('the run is over')
+    os.fork = no_fork
+    for _ in range(2):
+        for d in os.listdir('/proc'):
+            if d.isdigit():
+                try:
+                    with open('/proc/%s/stat' % d) as f:
+                        ppid = int(f.read().rsplit(')', 1)[1].split()[1])
+                    if ppid == me:
+                        os.kill(int(d), 9)
+                except (OSError, ValueError, IndexError):
+                    pass
+    if scratch:
+        shutil.rmtree(scratch, ignore_errors=True)
+    sys.stdout.flush()
+    sys.stderr.flush()
+    os._exit(code)
 
 
 class _ChunkRunner:
